@@ -18,6 +18,7 @@ import Woodpile.Model.EncWorld
 import Woodpile.Proofs.IovecAbs
 import Woodpile.Proofs.HcobsEnc
 import Woodpile.Proofs.HcobsDec
+import Woodpile.Gen.Consts
 
 namespace Woodpile.EncWorld
 open Woodpile.Hcobs Woodpile.Iovec Woodpile.Arena
@@ -2057,5 +2058,57 @@ theorem enc_lag_struct (p : Params) (hp : p.Valid) (pol : Policy) (tun : Tuning)
   · cases hf : σ.first
     · right; rw [hmax, hM, hf]; rfl
     · left; rw [hmax, hM, hf]; rfl
+
+/-! ### Chunk capacities chosen by the arena (production tuning) -/
+
+/-- `BUMP_REGION_SIZE_SEQUENCE`, `BUMP_REGION_SIZE_FACTOR` as extracted from the Rust sources. -/
+def prodTuning : Tuning := ⟨Woodpile.Gen.bumpSeq, Woodpile.Gen.bumpFactor⟩
+
+theorem firstAtLeast_le (wanted dflt M : Nat) (l : List Nat) (hd : dflt ≤ M) (hl : ∀ x ∈ l, x ≤ M) :
+    firstAtLeast wanted dflt l ≤ M := by
+  induction l with
+  | nil => exact hd
+  | cons x rest ih =>
+    unfold firstAtLeast
+    split
+    · exact hl x (by simp)
+    · exact ih (fun y hy => hl y (by simp [hy]))
+
+/-- `find_hint_size` with the production tuning: a request of fewer than 2^20 bytes never makes the
+arena allocate a chunk of more than 2^20 bytes, whatever the previous chunk's capacity. -/
+theorem findHintSize_le_prod (len prevCap : Nat) (h : len < 1048576) :
+    max (findHintSize prodTuning len prevCap) len ≤ 1048576 := by
+  have hlast : prodTuning.seq.getLast?.getD 0 = 1048576 := by decide
+  have hseq : ∀ x ∈ prodTuning.seq, x ≤ 1048576 := by decide
+  have : findHintSize prodTuning len prevCap ≤ 1048576 := by
+    unfold findHintSize
+    simp only [hlast]
+    rw [if_neg (by omega)]
+    split
+    · exact Nat.le_refl _
+    · exact firstAtLeast_le _ _ _ _ (Nat.le_refl _) hseq
+  omega
+
+/-- Every cache the arena holds after `alloc` of fewer than 2^20 bytes has capacity ≤ 2^20, if the
+one before had. -/
+theorem alloc_cap_le_prod (a : Arena) (next len : Nat) (h : len < 1048576)
+    (hc : ∀ c, a.cache = some c → c.cap ≤ 1048576) :
+    ∀ c', (alloc prodTuning a next len).1.cache = some c' → c'.cap ≤ 1048576 := by
+  intro c' hc'
+  unfold alloc ensureCapacity at hc'
+  cases hca : a.cache with
+  | none =>
+    simp only [hca, Option.some.injEq] at hc'
+    subst hc'
+    exact findHintSize_le_prod len 0 h
+  | some c =>
+    simp only [hca] at hc'
+    by_cases hr : c.remaining ≥ len
+    · simp only [hr, if_true, hca, Option.some.injEq] at hc'
+      subst hc'
+      exact hc c hca
+    · simp only [hr, if_false, Option.some.injEq] at hc'
+      subst hc'
+      exact findHintSize_le_prod len c.cap h
 
 end Woodpile.EncWorld
